@@ -975,3 +975,15 @@ def uncopy(e):
             e = e.func.value
         else:
             return e
+
+
+def uncopy_deep(e):
+    """expression with every copy of a sequence-valued read (list(X) / tuple(X) / X.copy() / copy(X), X a name, attribute or call result) replaced by X"""
+    import copy as _c
+
+    class U(ast.NodeTransformer):
+        def visit_Call(self, n):
+            n = self.generic_visit(n)
+            u = uncopy(n)
+            return u if u is not n and isinstance(u, (ast.Name, ast.Attribute, ast.Call, ast.Subscript)) else n
+    return U().visit(_c.deepcopy(e))
